@@ -39,12 +39,21 @@ func (s StandaloneStatSlot) OnEntryPassed(ctx *base.EntryContext) {
 	res := ctx.Resource.Name()
 	for _, tc := range getTrafficControllerListFor(res) {
 		if !tc.boundStat.reuseResourceStat {
+			if tc.rule != nil && tc.rule.RelationStrategy == AssociatedResource {
+				// The standalone statistic of an associated rule counts the traffic of the
+				// referenced resource (see below), not the traffic of the rule's own resource.
+				continue
+			}
 			if tc.boundStat.writeOnlyMetric != nil {
 				tc.boundStat.writeOnlyMetric.AddCount(base.MetricEventPass, int64(ctx.Input.BatchCount))
 			} else {
 				logging.Error(errors.New("nil independent write statistic"), "Nil statistic for traffic control in StandaloneStatSlot.OnEntryPassed()", "rule", tc.rule)
 			}
 		}
+	}
+	// Associated rules (of any resource) that reference this resource and own a standalone statistic.
+	for _, tc := range getAssociatedStandaloneControllersFor(res) {
+		tc.boundStat.writeOnlyMetric.AddCount(base.MetricEventPass, int64(ctx.Input.BatchCount))
 	}
 }
 
